@@ -65,6 +65,15 @@ def ref_hash(v):
     return ("refuse",)
 
 
+def _dec(digits):
+    """value of a string of decimal digits (any script), computed digit by digit"""
+    import unicodedata
+    n = 0
+    for ch in digits:
+        n = n * 10 + unicodedata.decimal(ch)
+    return n
+
+
 def ref_iteration(v):
     """('valid', n) | ('open', n) | ('refuse',)"""
     if isinstance(v, bool) or v is None:
@@ -75,8 +84,9 @@ def ref_iteration(v):
         return ("open", int(v)) if v.is_integer() and 0 <= v <= 65535 else ("refuse",)
     if not isinstance(v, str):
         return ("refuse",)
-    if re.fullmatch(r"(0|[1-9][0-9]*)", v):
-        n = int(v)
+    if re.fullmatch(r"[0-9]+", v, re.ASCII):
+        # a decimal string, zero-padded or not ("45", "0045"), denotes its decimal value
+        n = _dec(v)
         return ("valid", n) if n <= 65535 else ("refuse",)
     if re.fullmatch(r"0x[0-9a-fA-F]+", v):
         n = int(v[2:], 16)
@@ -84,9 +94,11 @@ def ref_iteration(v):
     # lenient readings the statement does not exclude (sign, blanks, digit separators,
     # leading zeros, upper-case prefix): open
     s = v.strip().replace("_", "")
-    m = re.fullmatch(r"[+-]?([0-9]+)", s)
+    m = re.fullmatch(r"([+-]?)(\d+)", s)          # \d: also non-ASCII decimal digits
     if m:
-        n = int(s)
+        n = _dec(m.group(2))
+        if m.group(1) == "-" and n != 0:
+            return ("refuse",)
         return ("open", n) if 0 <= n <= 65535 else ("refuse",)
     m = re.fullmatch(r"[+]?0[xX]([0-9a-fA-F]+)", s)
     if m:
@@ -127,7 +139,9 @@ def hash_menu(rng):
           ("nonhex", "zz" + hs[3].hex()[2:]), ("empty", ""),
           ("blanks", " ".join("%02x" % b for b in hs[3])),
           ("blank-edges", " " + hs[3].hex() + "\n"),
-          ("0x", "0x" + hs[3].hex()), ("null", None), ("number", 7)]
+          ("0x", "0x" + hs[3].hex()), ("null", None), ("number", 7),
+          ("fullwidth-digits", hs[3].hex().translate({0x30 + i: 0xFF10 + i for i in range(10)})),
+          ("0X", "0X" + hs[3].hex())]
     return m
 
 
@@ -137,7 +151,16 @@ ITER_MENU = [("0", 0), ("1", 1), ("255", 255), ("256", 256), ("65535", 65535), (
              ("s-1", "-1"), ("sempty", ""), ("s1e3", "1e3"), ("f1.0", 1.0), ("true", True),
              ("null", None), ("s+5", "+5"), ("s_7", " 7"), ("s1_0", "1_0"), ("s007", "007"),
              ("s0XFF", "0XFF"), ("s0x", "0x"), ("s-0", "-0"), ("s0x1_0", "0x1_0"),
-             ("list", [1]), ("f65536.0", 65536.0)]
+             ("list", [1]), ("f65536.0", 65536.0),
+             # zero-padded decimals are decimal strings (e.g. from printf %05d)
+             ("s0045", "0045"), ("s09", "09"), ("s065535", "065535"), ("s00", "00"),
+             ("s0000000001", "0000000001"), ("s065536", "065536"),
+             ("s0x00ff", "0x00ff"), ("s0xFFFF", "0xFFFF"),
+             # neither decimal nor 0x: binary / octal prefixes, exponent, hex without prefix
+             ("s0b101", "0b101"), ("s0o17", "0o17"), ("s0B1", "0B1"), ("s0O7", "0O7"),
+             ("sff", "ff"), ("s0x0x1", "0x0x1"), ("s1.0", "1.0"), ("s1 2", "1 2"),
+             # non-ASCII decimal digits / trailing newline: the statement is silent
+             ("sfullwidth45", "\uff14\uff15"), ("sarabic45", "\u0664\u0665"), ("s12nl", "12\n")]
 
 
 class Args(dict):
@@ -147,7 +170,7 @@ class Args(dict):
 class C17(Check):
     id = "C17"
     level = "exploration"
-    rule = ("all 65 536 iterations (int, decimal string, 0x string) with seeded hashes (quick: one hash "
+    rule = ("all 65 536 iterations (int, decimal string, zero-padded decimal, 0x string, padded 0x string) with seeded hashes (quick: one hash "
             "per block of 1024; thorough: each of 4 hashes); the full "
             "product of an 18-entry hash menu and a 30-entry iteration menu through the "
             "constructor, through authorization files and (strings) through signapp's argv; all "
@@ -312,7 +335,9 @@ class C17(Check):
             stats.dont_care += 1
         if err is not None:
             if not open_:
-                self.viol(vs, "wellformed-refused", "%s:%s" % (route, cls), route, args,
+                # name the element of non-trivial spelling: the iteration when it is a string
+                culprit = a.iname if isinstance(a.iter, str) else cls
+                self.viol(vs, "wellformed-refused", "%s:%s" % (route, culprit), route, args,
                           {"error": err}, {"text": ref_text(rh[1], ri[1])})
             return "refused-open" if open_ else "refused"
         h32, n = rh[1], ri[1]
@@ -374,7 +399,7 @@ class C17(Check):
                 elif sv.iteration != n:
                     bad = ("iteration-value", sv.iteration, n)
                 else:
-                    for form in (str(n), hex(n)):
+                    for form in (str(n), hex(n), "%06d" % n, "0x%06X" % n):
                         stats.evaluations += 1
                         s2 = SV(hs, form)
                         if s2.msg != text or s2.iteration != n:
@@ -431,7 +456,11 @@ class C17(Check):
             if err is not None:
                 return
         if err is not None:
-            self.viol(vs, "wellformed-refused", "file:%s" % cls, "file", args, {"error": err},
+            it = (a.doc or {}).get("signer", {}).get("iteration") if isinstance(a.doc, dict) and \
+                isinstance(a.doc.get("signer"), dict) else None
+            self.viol(vs, "wellformed-refused", "file:%s" % (a.iname if isinstance(it, str) and
+                                                            a.skind == "none" else cls),
+                      "file", args, {"error": err},
                       {"loaded": True})
             return
         rh, ri = ref_hash(doc["signer"]["hash"]), ref_iteration(doc["signer"]["iteration"])
@@ -486,8 +515,11 @@ class C17(Check):
         for s in sigs:
             if not isinstance(s, str):
                 return ("refuse", "signature")
+            compact = "".join(s.split())
+            if compact != s:
+                opened = True           # blank-separated hex: the statement is silent
             try:
-                raw = bytes.fromhex(s) if re.fullmatch(r"[0-9a-fA-F]*", s) else None
+                raw = bytes.fromhex(compact) if re.fullmatch(r"[0-9a-fA-F]*", compact, re.ASCII) else None
             except ValueError:
                 raw = None
             if raw is None:
@@ -627,6 +659,11 @@ class C17(Check):
         variant("signature-null", lambda d: d["signatures"].append(None))
         variant("signature-upper", lambda d: d["signatures"].__setitem__(0, d["signatures"][0].upper()))
         variant("extra-key", lambda d: d.update(comment="x"))
+        variant("signature-blanks", lambda d: d["signatures"].__setitem__(
+            0, " ".join(d["signatures"][0][i:i + 2] for i in range(0, len(d["signatures"][0]), 2))))
+        variant("signature-fullwidth", lambda d: d["signatures"].__setitem__(
+            0, d["signatures"][0].translate({0x30 + i: 0xFF10 + i for i in range(10)})))
+        variant("iteration-padded-string", lambda d: d["signer"].update(iteration="000300"))
         for name, raw in (("toplist", json.dumps([good])), ("topstring", json.dumps("x")),
                           ("notjson", "{version: 1}"), ("emptyfile", ""), ("truncated", json.dumps(good)[:-5])):
             self.x_file(Args(raw=raw, doc=None, hname="rnd1", iname="300", skind=name), stats, vs)
@@ -887,7 +924,9 @@ class C17(Check):
         return opstub.run_main(self.signapp.main, ["signapp.py"] + argv, patches=patches)
 
     def x_signapp_message(self, a, stats, vs):
-        """args: app (0/1), iter (string), iname, out (bool)"""
+        """args: app (0/1), iter (string), iname, out (bool), pre: what the output path holds
+        from an earlier step (None | "old0" | "old2": authorization of the OTHER image with
+        another iteration and 0 / 2 signatures | "garbage")"""
         stats.evaluations += 1
         app = self.td.write("app%d.hex" % a.app, self.app_text[a.app])
         h32 = self.app_hash[a.app]
@@ -896,12 +935,32 @@ class C17(Check):
         outp = self.td.file("out.json")
         if os.path.exists(outp):
             os.unlink(outp)
+        if a.pre in ("old0", "old2"):
+            oh, oit = self.app_hash[1 - a.app], 4242
+            old = {"version": 1, "signer": {"hash": oh.hex(), "iteration": oit},
+                   "signatures": [ecsig.sign_libsecp(self.keys[i], ref_digest(oh, oit)).hex()
+                                  for i in range(2 if a.pre == "old2" else 0)]}
+            self.td.write("out.json", json.dumps(old, indent=2) + "\n")
+        elif a.pre == "garbage":
+            self.td.write("out.json", "not an authorization\n")
+        before = self.td.read("out.json")
         if a.out:
             argv += ["-o", outp]
         r = self.run_signapp(argv)
         args = dict(a)
         saved = self.td.read("out.json")
-        stats.observe(("signapp-message", a.iname, bool(a.out), r.code, saved is not None))
+        stats.observe(("signapp-message", a.iname, bool(a.out), a.pre, r.code, saved is not None,
+                       saved == before))
+        if a.pre and (ri[0] == "refuse" or not a.out):
+            # a refused or print-only call leaves the earlier file alone
+            if saved != before:
+                self.viol(vs, "refusal-changed-state", "signapp-message:existing-file",
+                          "signapp_message", args, {"file": saved}, {"file": before})
+            if ri[0] == "refuse":
+                if r.code == 0:
+                    self.viol(vs, "malformed-accepted", "signapp-message:%s" % a.iname,
+                              "signapp_message", args, {"exit": r.code}, {"exit": "nonzero"})
+                return
         stats.sample({"route": "signapp-message", "argv": argv[3:], "exit": r.code,
                       "stdout": r.out[-200:]})
         if r.exc or r.gone:
@@ -935,7 +994,13 @@ class C17(Check):
             except Exception:   # noqa
                 d = None
             want = {"version": 1, "signer": {"hash": h32.hex(), "iteration": ri[1]}, "signatures": []}
-            if d != want:
+            if a.pre:
+                # the file must now speak about THIS image and iteration, whatever it held before
+                if not isinstance(d, dict) or d.get("signer") != want["signer"]:
+                    self.viol(vs, "saved-content", "signapp-message-over-existing-file",
+                              "signapp_message", args, {"file": saved, "held_before": before},
+                              {"signer": want["signer"]})
+            elif d != want:
                 self.viol(vs, "saved-content", "signapp-message-file", "signapp_message", args,
                           {"file": saved}, {"file": want})
 
@@ -947,7 +1012,9 @@ class C17(Check):
             iname = "argv-" + iname
         for app in (0, 1):
             for out in (False, True):
-                self.x_signapp_message(Args(app=app, iter=ival, iname=iname, out=out), stats, vs)
+                for pre in (None, "old0", "old2", "garbage"):
+                    self.x_signapp_message(Args(app=app, iter=ival, iname=iname, out=out, pre=pre),
+                                           stats, vs)
         if case["it"] == 0:
             # missing arguments
             for argv in (["message"], ["message", "-i", "1"], ["message", "-a", self.td.file("nope.hex"),
